@@ -211,6 +211,15 @@ pub fn run_c06(tier: &str, rec: &Recorder) -> RunOutput {
 }
 
 fn replay_generic(case: &str, which: &'static str, rec: &Recorder) -> bool {
+    if case.starts_with("L:") {
+        let mut c = Counters::default();
+        if which == "C05" {
+            crate::large::c05_large("thorough", rec, &mut c);
+        } else {
+            crate::large::c06_large("thorough", rec, &mut c);
+        }
+        return rec.has_any();
+    }
     let (f, _, _, _, _) = match parse_case(case) {
         Some(x) => x,
         None => return false,
